@@ -306,6 +306,26 @@ fn dup_case(u: &mut Choices, sz: Size) -> CaseResult {
         let t = l.trim().trim_start_matches("not ");
         t == file.rules[i].name
     });
+    // first: every rule order that keeps the two definitions in their relative order (however a
+    // reference to the name is resolved, it can only depend on the order of the definitions)
+    let nr = file.rules.len();
+    for p in sample_perms(u, nr) {
+        let (pi, pj) = (p.iter().position(|x| *x == i).unwrap_or(0), p.iter().position(|x| *x == j).unwrap_or(0));
+        if pi > pj {
+            continue;
+        }
+        let mut f3 = file.clone();
+        f3.rules = p.iter().map(|k| file.rules[*k].clone()).collect();
+        let v3 = print_file(&f3);
+        match compare_multi(&doc_text, &base, &v3) {
+            Ok(None) => return CaseResult::Discard("evaluation-error-in-some-ordering"),
+            Ok(Some(_)) => {}
+            Err((msg, sig)) => {
+                let sig = if sig == "c04:duplicate-names:status-changed" { "c04:duplicate-names:order-of-other-rules".to_string() } else { sig };
+                return CaseResult::Fail(Failure { msg: format!("rules reordered as {:?}, the two definitions of {} kept in their order: {}", p, file.rules[i].name, msg), sig, case: json!({"kind": "duplicate-names", "doc": doc_text, "base": base, "variant": v3, "sig": "c04:duplicate-names:order-of-other-rules"}) });
+            }
+        }
+    }
     match compare_multi(&doc_text, &base, &variant) {
         Ok(None) => CaseResult::Discard("evaluation-error-in-some-ordering"),
         Ok(Some(mixed)) => CaseResult::Pass(Info {
@@ -323,7 +343,7 @@ pub fn replay(case: &J) -> CaseResult {
     if case["kind"] == "duplicate-names" {
         return match compare_multi(case["doc"].as_str().unwrap_or(""), case["base"].as_str().unwrap_or(""), case["variant"].as_str().unwrap_or("")) {
             Ok(_) => CaseResult::Pass(Info::default()),
-            Err((msg, sig)) => CaseResult::Fail(Failure { msg, sig, case: case.clone() }),
+            Err((msg, sig)) => CaseResult::Fail(Failure { msg, sig: case["sig"].as_str().map(String::from).unwrap_or(sig), case: case.clone() }),
         };
     }
     let doc = case["doc"].as_str().unwrap_or("");
